@@ -166,6 +166,9 @@ pub struct Endpoint {
     /// registration in the pending table and its hand-over to the wire)
     pub hold_sends: bool,
     pub send_gate: Arc<Notify>,
+    /// scripted endpoint that answers INSIDE the sender's socket send: the reply is already in the sender's inbound
+    /// channel when send() returns (reaches orderings in which a reply overtakes the sender's own bookkeeping)
+    pub instant_reply: Option<Arc<dyn Fn(&Frame) -> Option<Vec<u8>> + Send + Sync>>,
 }
 
 #[derive(Default)]
@@ -206,7 +209,7 @@ impl World {
         w.by_addr.insert(addr, hexid.clone());
         w.eps.insert(
             hexid.clone(),
-            Endpoint { tid, hex: hexid.clone(), addr, inbound: None, accept_q: VecDeque::new(), accept_notify: Arc::new(Notify::new()), conns: BTreeSet::new(), closed: false, scripted, silent: false, slow_by: None, undialable: false, send_fails: false, hold_sends: false, send_gate: Arc::new(Notify::new()) },
+            Endpoint { tid, hex: hexid.clone(), addr, inbound: None, accept_q: VecDeque::new(), accept_notify: Arc::new(Notify::new()), conns: BTreeSet::new(), closed: false, scripted, silent: false, slow_by: None, undialable: false, send_fails: false, hold_sends: false, send_gate: Arc::new(Notify::new()), instant_reply: None },
         );
         Arc::new(Sock { world: self.clone(), me: hexid, tid })
     }
@@ -372,6 +375,23 @@ impl VerifSocket for Sock {
             return Err("not connected".into());
         }
         push_frame(&mut w, &self.me.clone(), peer_id, data.to_vec());
+        // instant responder: take the frame off the wire and put the answer into the sender's inbound channel now
+        if let Some(f) = w.eps.get(peer_id).and_then(|e| e.instant_reply.clone()) {
+            if let Some(fr) = w.pending.pop() {
+                w.trace.push(Ev::Delivered { seq: fr.seq, from: fr.src.clone(), to: fr.dst.clone(), kind: fr.info.kind(), msg_id: String::new() });
+                if let Some(reply) = f(&fr) {
+                    let mut tid = [0u8; 32];
+                    if let Ok(b) = hex::decode(peer_id) {
+                        if b.len() == 32 {
+                            tid.copy_from_slice(&b);
+                        }
+                    }
+                    if let Some(tx) = w.eps.get(&self.me).and_then(|e| e.inbound.clone()) {
+                        let _ = tx.try_send((AntPeerId(tid), reply));
+                    }
+                }
+            }
+        }
         Ok(())
     }
     async fn accept(&self) -> Option<(AntPeerId, SocketAddr)> {
